@@ -246,7 +246,17 @@ pub fn run(ctx: &mut Ctx) {
                         }
                     }
                     seen2.lock().unwrap().extend_from_slice(&got);
-                    let _ = s.write_all(b"HTTP/1.1 101 Switching Protocols\r\nUpgrade: websocket\r\nConnection: Upgrade\r\n\r\nORIGIN-BYTES").await;
+                    // the origin writes its response head in pieces (inside the status line, inside the header block, before the
+                    // final CRLF): however it is segmented, it is one response
+                    let resp: &[u8] = b"HTTP/1.1 101 Switching Protocols\r\nUpgrade: websocket\r\nConnection: Upgrade\r\nX-Filler: abcdefghijklmnopqrstuvwxyz\r\n\r\nORIGIN-BYTES";
+                    let _ = s.set_nodelay(true);
+                    let mut prev = 0;
+                    for cut in [12usize, 50, 100, resp.len() - 14] {
+                        let _ = s.write_all(&resp[prev..cut]).await;
+                        prev = cut;
+                        tokio::time::sleep(std::time::Duration::from_millis(15)).await;
+                    }
+                    let _ = s.write_all(&resp[prev..]).await;
                     // the exchange outlives the session's poll timeout (300 ms here): more bytes at 900 ms
                     let (mut rd, mut wr) = s.into_split();
                     let late = tokio::spawn(async move {
@@ -368,7 +378,15 @@ pub fn run_h3(ctx: &mut Ctx) {
                             Ok(n) => got.extend_from_slice(&buf[..n]),
                         }
                     }
-                    let _ = s.write_all(b"HTTP/1.1 200 OK\r\nX-Origin: yes\r\nContent-Length: 12\r\n\r\nORIGIN-BYTES");
+                    let resp: &[u8] = b"HTTP/1.1 200 OK\r\nX-Origin: yes\r\nX-Filler: abcdefghijklmnopqrstuvwxyz0123456789\r\nContent-Length: 12\r\n\r\nORIGIN-BYTES";
+                    let _ = s.set_nodelay(true);
+                    let mut prev = 0;
+                    for cut in [10usize, 45, 80] {
+                        let _ = s.write_all(&resp[prev..cut]);
+                        prev = cut;
+                        std::thread::sleep(Duration::from_millis(15));
+                    }
+                    let _ = s.write_all(&resp[prev..]);
                     let t0 = std::time::Instant::now();
                     while t0.elapsed() < Duration::from_millis(300) {
                         match s.read(&mut buf) {
